@@ -137,7 +137,7 @@ func init() {
 					rt := rootOf(posArg)
 					p := fmt.Sprintf("%T:%s", rt, path(posArg))
 					if prm, ok := rt.(*ssa.Parameter); ok {
-						p = fmt.Sprintf("param(%s ast=%v)", prm.Name(), isAstTyped(prm.Type()))
+						p = fmt.Sprintf("param(%s ast=%v)", pname(prm), isAstTyped(prm.Type()))
 					}
 					cnt[p]++
 					if name != "" && strings.Contains(p, name) {
